@@ -2,7 +2,7 @@
 bit level); tags decode to the variant the writer meant; every compress path (incl. raw fallback)
 has its inverse on the decompress side (R-SYM)."""
 from vlib import fixtures
-from rules import pair, sym, tagmap, tagkind, scratch, trunc, capsrc
+from rules import pair, sym, tagmap, tagkind, scratch, trunc, capsrc, order
 from vlib.mir import Fn, op_local
 from vlib.run import Broken
 
@@ -31,7 +31,7 @@ def arm_pair(ctx, fx, w, r, enums, label, rule="R-PAIR"):
 
 def run(ctx):
     fx = ctx.facts("default")
-    fixtures.run(ctx, ['pair', 'tagkind', 'scratch', 'varint', 'capsrc'])
+    fixtures.run(ctx, ['pair', 'tagkind', 'scratch', 'varint', 'capsrc', 'shared'])
     ev = 0
     w, r = need(fx, PZ + "apply_compression_strategy"), need(fx, PZ + "decompress_match")
     ctx.analysed_fns.update([w.id, r.id])
@@ -120,6 +120,9 @@ def run(ctx):
     # bounded decompression calls: the bound is a constant or a stored size, never a multiple of the compressed length
     capsrc.run(ctx, fx, [f for f in fx.files() if f.startswith('src/compression/') or ctx.tier == 'thorough'])
     ctx.floor('R-CAPSRC.sites', 1)
+    # block-wise compression: blocks are not gathered in completion order (no parallel driver on the pinned tree;
+    # the fixture keeps the rule alive)
+    order.shared_accumulator(ctx, fx, [f for f in fx.files() if f.startswith('src/compression/') or ctx.tier == 'thorough'])
     ctx.floor("R-SYM.pairs", 8)
     return dict(
         level_note="decides layout/tag agreement per match type and store/load path symmetry; match finding, the suffix-array "
